@@ -777,9 +777,9 @@ def component_cases(ctx, rng, reg, mix, header, files, rec, tmp, configobj):
             pname = rng.choice(['Uniform', 'uniform', 'UNIFORM', 'LogUniform', 'loguniform', 'Gaussian', 'LogGaussian',
                                 'Nonesuch', 'Loguniform'])
             if 'aussian' in pname:
-                args = 'mean=%g, std=%g' % (rng.uniform(1, 5), rng.uniform(0.1, 1))
+                args = 'mean=%s, std=%g' % (rng.choice(['0', '0.0', '%g' % rng.uniform(1, 5), '-1.5']), rng.uniform(0.1, 1))
             else:
-                args = 'bounds=(%g, %g)' % (rng.uniform(0, 1), rng.uniform(2, 5))
+                args = 'bounds=(%s, %g)' % (rng.choice(['0', '0.0', '%g' % rng.uniform(0, 1)]), rng.uniform(2, 5))
             if scenario == 'unknown-key':
                 args += ', bogus=1'
             sections[sec] = {'T:fit': 'True', 'T:prior': '"%s(%s)"' % (pname, args)}
